@@ -260,6 +260,7 @@ fn known_ids(verif: &Path) -> oracle::Known {
                         match tok {
                             "id=KF1" => k.kf1 = true,
                             "id=KF2" => k.kf2 = true,
+                            "id=KF3" => k.kf3 = true,
                             _ => {}
                         }
                     }
@@ -905,6 +906,10 @@ fn cmd_run(args: &Args) -> i32 {
                 + sweep_counters.get(C::kf2_roundtrip_hits)
                 + sweep_counters.get(C::kf2_backstep_hits),
         ),
+        (
+            "KF3",
+            out_counters.get(C::kf3_backstep_hits) + sweep_counters.get(C::kf3_backstep_hits),
+        ),
     ];
     for (id, hits) in kf_hits {
         if hits > 0 {
@@ -1009,6 +1014,7 @@ fn cmd_run(args: &Args) -> i32 {
             "known_finding_hits": {
                 "KF1": kf_hits[0].1,
                 "KF2": kf_hits[1].1,
+                "KF3": kf_hits[2].1,
             },
             "event_log_hash_combined": format!("{combined:016x}"),
             "determinism_pairs_checked": args.det_pairs,
